@@ -425,6 +425,36 @@ void disc_pool() {
 }
 extern "C" void h_disc_pool() { disc_pool(); }
 #endif
+// stop() of another thread while a worker is on its way into condition_variable::wait (it has found nothing to do and no exit request, holds the mutex, is not
+// yet registered as a waiter): pre-park hook of the runtime model. Whatever stop() does before it needs the pool mutex happens in that window; a correct stop()
+// needs the mutex first, i.e. it waits until the worker waits. vector: [n-1, job kind (0 none, 1 co_await pool, 2 run(fn), 3 run_detached), w-1 = the worker in whose
+// wait stop() lands, others (0: the other workers have not run yet, 1: they are parked)]
+void prepark_stop() {
+    vf_warmup();
+    Ctx cx; G = &cx;
+    const int n = 1 + vf_choice(3);
+    vf_cond_pick(0);
+    const int jk = vf_choice(4);
+    const int w = 1 + vf_choice(n);
+    const int others = vf_choice(2);
+    const long base = vf_live_allocs();
+    cx.nthreads = n;
+    cx.pool = new thread_pool(n);
+    if (others) for (int i = 1; i <= n; i++) if (i != w) vf_thread_run(i);
+    if (jk) submit(jk == 1 ? K_COAWAIT : jk == 2 ? K_RUN_FN : K_DETACHED, I_NONE);
+    vf_prepark_arm(&injected_stop);
+    if (vf_thread_runnable(w)) vf_thread_run(w);           // runs the job (if it gets it), then goes to wait: stop() lands there
+    if (vf_prepark_pending()) { VF_ASSERT(false, "VF_SPEC the selected worker did not reach its wait"); }
+    VF_ASSERT(cx.stop_returned, "C11 stop() issued while a worker is entering its wait returns (no lost wake-up, no deadlock in join)");
+    check_running();
+    check_settled();
+    vf_out(summary());
+    do_destroy();
+    check_final(false, base);
+    vf_choice_end();
+    vf_witness();
+}
+extern "C" void h_stop_prepark() { prepark_stop(); }
 extern "C" void h_batch_wake() { batch_wake(); }
 extern "C" void h_pool() { run_history(false); }
 extern "C" void h_raw_cancel() { run_history(true); }
